@@ -127,9 +127,10 @@ def run(shard, rec, tier, seed):
                 if len(outs) == 3 and n <= 65536:
                     # recover the permutation from labellings 0 and 1 and compare it with labelling 2
                     perm = [outs[0][j] + 256 * outs[1][j] for j in range(n)]
+                    lab2 = labelled(n, 2)
                     if sorted(perm) != list(range(n)):
                         rec.violation("perm", "%s at length %d is not a permutation of positions" % (fname, n), {"f": fname, "n": n})
-                    elif [labelled(n, 2)[p] for p in perm] != list(outs[2]):
+                    elif [lab2[p] for p in perm] != list(outs[2]):
                         rec.violation("perm", "%s at length %d: permutation depends on the data" % (fname, n), {"f": fname, "n": n})
                     rec.count("perm-data-independent")
                 rec.case((fname, n), nontrivial=n >= 2)
